@@ -75,10 +75,13 @@
 //! Round 6 directed families in `gen_burst`: E (a spender and a dep user of the same cell pooled, a third
 //! spender committed), R (re-proposal around the block at which the first proposal leaves the window),
 //! T (parent and child committed in different blocks of an abandoned branch); `gen_paused`: paused submissions.
-//! SUSPECTED defect found in round 6 (counted until listed): `suspected-stale-submit-same-tip-unknown-input` /
-//! `suspected-input-unknown-since-same-tip-submit` — submit_entry re-checks the resolved transaction only when the tip
-//! moved; when the POOL lost the parent meanwhile (RBF replacement by a concurrent submission) the child is admitted
-//! with an unknown input and survives every later chain change (work/eng-C12/finding-same-tip-parent-replaced.ops).
+//! Defects found in round 6, listed in known_findings.txt and reported under their listed names:
+//! `stale-submit-same-tip-unknown-input` / `input-unknown-since-same-tip-submit` — submit_entry re-checks the resolved
+//! transaction only when the tip moved; when the POOL lost the parent meanwhile (RBF replacement by a concurrent
+//! submission) the child is admitted with an unknown input and survives every later chain change
+//! (corpus/C12/reorg-suspect-same-tip-parent-replaced.ops); `pool-map-invalid-key-panic` — the real PoolMap's
+//! multi-index map panics with `invalid key` (recognised by a panic hook; the panic is the reported event, the chain
+//! changes of that case after it are counted, not judged or compared).
 use crate::common::*;
 use crate::node::*;
 use ckb_app_config::{BlockAssemblerConfig, NetworkConfig, TxPoolConfig};
@@ -100,9 +103,9 @@ use std::time::{Duration, Instant};
 
 /// (round 6) set by the panic hook when a tx-pool service task of the REAL code panics with "invalid key" inside
 /// PoolMap's multi-index map (tx-pool/src/component/pool_map.rs): the map is inconsistent from then on (entries
-/// that no index finds, index keys without an entry) and the pool no longer follows the chain. SUSPECTED defect of
-/// /repo found in round 6 (seeded/C12/findings-round6/finding-pool-map-invalid-key-seed12345-case4.ops), reported to
-/// the coordinator; until it is listed or repaired the rest of such a case is counted, not judged.
+/// that no index finds, index keys without an entry) and the pool no longer follows the chain. Defect of /repo found
+/// in round 6 (seeded/C12/findings-round6/finding-pool-map-invalid-key-seed12345-case4.ops), listed as class
+/// pool-map-invalid-key-panic: the panic is reported, the rest of such a case is counted, not judged.
 static POOL_MAP_PANIC: std::sync::atomic::AtomicBool = std::sync::atomic::AtomicBool::new(false);
 
 fn install_panic_watch() {
@@ -247,6 +250,8 @@ struct World {
     /// transactions admitted by a paused submission AT THE TIP OF ITS PRE-CHECK with an out-point that is neither
     /// live nor created in the pool (the pool changed in between; submit_entry re-checks only when the tip moved)
     same_tip_orphans: HashSet<usize>,
+    /// the pool-map panic of this case was reported
+    panic_reported: bool,
 }
 
 fn cap_of(tx: &TransactionView, i: usize) -> u64 {
@@ -281,7 +286,7 @@ impl World {
         let gcells = genesis_cells(&consensus);
         let mut block_ids = HashMap::new();
         block_ids.insert(consensus.genesis_hash(), 0);
-        World { dir, cfg, consensus, main, builder, txs: vec![], fees: vec![], code_cell: always_success_dep().out_point(), tid_by_short: HashMap::new(), tid_by_hash: HashMap::new(), gcells, block_ids, salt: 1000, ever_detached: HashSet::new(), expired_removed: HashSet::new(), dropped_detached: HashSet::new(), clock, guard, paused: None, same_tip_orphans: HashSet::new() }
+        World { dir, cfg, consensus, main, builder, txs: vec![], fees: vec![], code_cell: always_success_dep().out_point(), tid_by_short: HashMap::new(), tid_by_hash: HashMap::new(), gcells, block_ids, salt: 1000, ever_detached: HashSet::new(), expired_removed: HashSet::new(), dropped_detached: HashSet::new(), clock, guard, paused: None, same_tip_orphans: HashSet::new(), panic_reported: false }
     }
 
     fn finish(self) {
@@ -405,6 +410,15 @@ impl World {
             })
             .expect("verif_read");
         let (d, desc, anc) = r;
+        if std::env::var("VERIF_DEBUG").is_ok() {
+            // root-cause aid for pool-map-invalid-key-panic: aggregates that saturated to zero / below the entry's own
+            for e in d.entries.iter() {
+                let x = &e.entry;
+                if x.ancestors_size < x.size || x.ancestors_cycles < x.cycles || x.ancestors_fee.as_u64() < x.fee.as_u64() || x.descendants_size < x.size || x.descendants_fee.as_u64() < x.fee.as_u64() {
+                    eprintln!("VERIF_DEBUG degenerate-aggregates tx{:?} size={} cycles={} fee={} anc(count={},size={},cycles={},fee={}) desc(count={},size={},cycles={},fee={}) score={:?}", self.tid_by_short.get(&e.id), x.size, x.cycles, x.fee.as_u64(), x.ancestors_count, x.ancestors_size, x.ancestors_cycles, x.ancestors_fee.as_u64(), x.descendants_count, x.descendants_size, x.descendants_cycles, x.descendants_fee.as_u64(), e.score);
+                }
+            }
+        }
         let hd: HashMap<ProposalShortId, Vec<Byte32>> = d.header_deps.iter().cloned().collect();
         let mut v = vec![];
         for ((e, ds), an) in d.entries.iter().zip(desc.iter()).zip(anc.iter()) {
@@ -429,12 +443,22 @@ impl World {
     }
 }
 
+/// the panic itself is the reported event (listed class pool-map-invalid-key-panic), once per case
+fn report_pool_map_panic(w: &mut World, out: &mut Out) {
+    if POOL_MAP_PANIC.load(std::sync::atomic::Ordering::SeqCst) && !w.panic_reported {
+        w.panic_reported = true;
+        out.count("pool-map-invalid-key-panic-seen");
+        out.oracle_fail("pool-map-invalid-key-panic", "a tx-pool service task of the real code panicked with `invalid key` inside PoolMap's multi-index map (tx-pool/src/component/pool_map.rs); the pool no longer follows the chain, the rest of the case is not judged");
+    }
+}
+
 /// one chain change: pool before, chain before, then the block(s); evaluates oracle + emits model lines
 fn after_chain_change(w: &mut World, out: &mut Out, pre: &Pre) {
     w.sync_pool(out);
     if POOL_MAP_PANIC.load(std::sync::atomic::Ordering::SeqCst) {
         // the real pool map is corrupted (see POOL_MAP_PANIC): counted until the coordinator lists or repairs it
-        out.count("suspected-chain-change-after-pool-map-invalid-key-panic");
+        report_pool_map_panic(w, out);
+        out.count("chain-change-after-pool-map-invalid-key-panic-not-judged");
         return;
     }
     let old_chain = &pre.chain;
@@ -609,9 +633,9 @@ fn after_chain_change(w: &mut World, out: &mut Out, pre: &Pre) {
         if by_expiry {
             "input-of-expired-parent".to_string()
         } else if w.same_tip_orphans.contains(&user) {
-            // SUSPECTED (round 6, reported to the coordinator, counted until listed): admitted by submit_entry at the
+            // listed in known_findings.txt (round 6): admitted by submit_entry at the
             // tip of its pre-check after the pool had lost the creator (no re-check when the tip did not move)
-            "suspected-input-unknown-since-same-tip-submit".to_string()
+            "input-unknown-since-same-tip-submit".to_string()
         } else if by_detached_readd {
             // listed in known_findings.txt (round 5): reported under its listed name
             "input-of-parent-dropped-at-detached-proposal-readd".to_string()
@@ -778,7 +802,8 @@ fn release_paused(w: &mut World, out: &mut Out) {
     let Some((tid, handle, pre_tip, pre_stage)) = w.paused.take() else { return };
     if POOL_MAP_PANIC.load(std::sync::atomic::Ordering::SeqCst) {
         let _ = handle.release();
-        out.count("suspected-release-after-pool-map-invalid-key-panic");
+        report_pool_map_panic(w, out);
+        out.count("release-after-pool-map-invalid-key-panic-not-judged");
         return;
     }
     w.sync_pool(out);
@@ -833,8 +858,9 @@ fn release_paused(w: &mut World, out: &mut Out) {
                 if tip_changed {
                     out.oracle_fail("stale-submit-dead-or-unknown-input", &format!("tx{tid} was admitted by a paused submission after the tip changed with out-point {} that is neither live nor created in the pool", w.op_code(&op)));
                 } else {
-                    // SUSPECTED defect (counted until listed): the tip did not move, the POOL did; nothing is re-checked
-                    out.count("suspected-stale-submit-same-tip-unknown-input");
+                    // listed in known_findings.txt (round 6): the tip did not move, the POOL did; nothing is re-checked
+                    out.count("stale-submit-same-tip-unknown-input-seen");
+                    out.oracle_fail("stale-submit-same-tip-unknown-input", &format!("tx{tid} was admitted by a paused submission at the tip of its pre-check with out-point {} that is neither live nor created in the pool (the pool lost the creator meanwhile; submit_entry re-checks only when the tip moved)", w.op_code(&op)));
                     w.same_tip_orphans.insert(tid);
                 }
             }
@@ -1003,6 +1029,7 @@ fn exec(w: &mut Option<World>, out: &mut Out, base: &Path, line: &str) {
                 }
                 other => panic!("bad op {other}"),
             }
+            report_pool_map_panic(w, out);
         }
     }
 }
